@@ -239,3 +239,59 @@ def enum_paths(body, limit=5000):
 
     go(list(body), [], lambda p: out.append(p + [("fall", None)]))
     return out
+
+
+# ---------------------------------------------------------------------------
+# path facts
+
+
+def decompose(test, truth, out):
+    """split a branch condition into atomic facts (normalised text, truth)"""
+    from .core import norm
+
+    if isinstance(test, ast.UnaryOp) and isinstance(test.op, ast.Not):
+        decompose(test.operand, not truth, out)
+    elif isinstance(test, ast.BoolOp) and isinstance(test.op, ast.And) and truth:
+        for v in test.values:
+            decompose(v, True, out)
+    elif isinstance(test, ast.BoolOp) and isinstance(test.op, ast.Or) and not truth:
+        for v in test.values:
+            decompose(v, False, out)
+    else:
+        out.append((norm(test), truth, test))
+
+
+def path_facts(path):
+    """atomic facts established by the branch conditions of a path"""
+    out = []
+    for ev in path:
+        if ev[0] == "cond":
+            decompose(ev[1], ev[2], out)
+    return out
+
+
+def path_has_fact(path, text, truth=True):
+    return any(t == text and tr == truth for t, tr, _ in path_facts(path))
+
+
+def path_stmts(path):
+    """statement / expression nodes executed on a path (conditions included,
+    as their test expressions)"""
+    for ev in path:
+        if ev[0] in ("stmt", "return", "raise", "partial") and ev[1] is not None:
+            yield ev[1]
+        elif ev[0] == "cond":
+            yield ev[1]
+        elif ev[0] == "loop":
+            yield ev[1].iter if isinstance(ev[1], ast.For) else ev[1].test
+
+
+def path_calls(path):
+    for st in path_stmts(path):
+        for n in ast.walk(st):
+            if isinstance(n, ast.Call):
+                yield n
+
+
+def path_end(path):
+    return path[-1]
